@@ -4,7 +4,7 @@ from ..facts import CALLS, fmt_term
 from ..flow import Engine, Summaries, norm_cmp, final_site_facts, fmt_fact
 from ..prove import prove_le, Width
 from ..report import ok, bad
-from ..rules_stream import r_atomic, r_nowrap, r_cursor, r_count, guard_blocks, mutates_this
+from ..rules_stream import r_atomic, r_nowrap, r_cursor, r_count, guard_blocks, mutates_this, r_guard_exact
 from ..invariants import class_invariants
 
 NS = "OP2Utility::Stream::"
@@ -117,6 +117,33 @@ def slice_cursor_rule(F, S, run, inv, sum_ok=False):
                                "no wrap-safe dominating guard; facts at site: " +
                                ("; ".join(sorted(fmt_fact(f) for f in site if f[0] not in ("ev", "called"))) or "none")))
     return out, n
+
+
+def P(fn, i):
+    return ("var", fn.params[i]["n"], fn.params[i]["d"])
+
+
+def M(name):
+    return ("mem", ("this",), name)
+
+
+def reader_guard_specs(F):
+    """(function, [(X, Y)]): the operation is in bounds iff X <= Y."""
+    posc = ("call", SR + "::Position", ("this",), ())
+    out = []
+    f = F.fn(MR + "::ReadImplementation", nparams=2); out.append((f, [(P(f, 1), ("op", "-", M("streamSize"), M("position")))]))
+    f = F.fn(MR + "::Seek", nparams=1); out.append((f, [(P(f, 0), M("streamSize"))]))
+    f = F.fn(MR + "::SeekForward", nparams=1); out.append((f, [(P(f, 0), ("op", "-", M("streamSize"), M("position")))]))
+    f = F.fn(MR + "::SeekBackward", nparams=1); out.append((f, [(P(f, 0), M("position"))]))
+    f = F.fn(MR + "::Slice", nparams=2); out.append((f, [(("op", "+", P(f, 0), P(f, 1)), M("streamSize"))]))
+    f = F.fn(SR + "::ReadImplementation", nparams=2); out.append((f, [(P(f, 1), ("op", "-", M("sliceLength"), posc))]))
+    f = F.fn(SR + "::Seek", nparams=1); out.append((f, [(P(f, 0), M("sliceLength"))]))
+    f = F.fn(SR + "::SeekForward", nparams=1); out.append((f, [(P(f, 0), ("op", "-", M("sliceLength"), posc))]))
+    f = F.fn(SR + "::SeekBackward", nparams=1); out.append((f, [(P(f, 0), posc)]))
+    f = F.fn(SR + "::Slice", nparams=2); out.append((f, [(("op", "+", P(f, 0), P(f, 1)), M("sliceLength"))]))
+    f = F.fn(SR + "::Initialize", nparams=0)
+    out.append((f, [(("op", "+", M("startingOffset"), M("sliceLength")), ("call", NS + "FileReader::Length", M("wrappedStream"), ()))]))
+    return out
 
 
 def typed_helpers(F, S, run):
@@ -265,6 +292,14 @@ def check(F, run, tier):
             total_guards += g
             run.add(obs)
     run.floor("R-NOWRAP(guards)", total_guards, 12)
+
+    # ---- R-GUARD: each bounds guard refuses exactly the out-of-bounds arguments
+    ng = 0
+    for fn, specs in reader_guard_specs(F):
+        inv = inv_slice if fn.cls == SR else inv_mem
+        run.add(r_guard_exact(F, Engine(F, S), fn, specs, invariants=inv))
+        ng += 1
+    run.floor("R-GUARD", ng, 11)
 
     # ---- R-ATOMIC
     nat = 0
